@@ -26,18 +26,36 @@ def guard (field : String) : Option String :=
   else if field = "firstError.err" then some "firstError.mu"
   else some "?"
 
-/-- code that only ever runs on the RetryClient's task goroutine: the goroutine body inside
-    SetClient, the task closures pushed by Retry / Resubscribe, and the helpers they call -/
-def taskGoroutineFns : List String :=
-  ["(*RetryClient).publish", "(*RetryClient).subscribe", "(*RetryClient).unsubscribe",
-   "(*RetryClient).Retry", "(*RetryClient).Resubscribe", "(*RetryClient).SetClient"]
+/-- code that only ever runs on the RetryClient's task goroutine, by construction: the goroutine body inside
+    SetClient (`$go`), the closures pushed as tasks by the API methods, and the closures that are only ever stored
+    in `retryQueue` (a confined field) and called from there by `Retry`'s task -/
+def taskGoroutineRoots : List String :=
+  ["(*RetryClient).SetClient$go",
+   "(*RetryClient).Publish$closure", "(*RetryClient).Subscribe$closure", "(*RetryClient).Unsubscribe$closure",
+   "(*RetryClient).Disconnect$closure", "(*RetryClient).Retry$closure", "(*RetryClient).Resubscribe$closure",
+   "(*RetryClient).publish$closure", "(*RetryClient).subscribe$closure", "(*RetryClient).unsubscribe$closure",
+   "(*RetryClient).retryWithTimeout$closure"]
+
+/-- … and every named function all of whose call sites (`Generated.callers`, by name: a superset) lie in such
+    code, transitively (helpers may be introduced or renamed freely) -/
+def confined : Nat → String → Bool
+  | 0, fn => taskGoroutineRoots.contains fn
+  | fuel + 1, fn =>
+    taskGoroutineRoots.contains fn ||
+    match Generated.callers.find? (fun e => e.1 == fn) with
+    | some (_, cs) => !cs.isEmpty && cs.all (fun c => c == fn || confined fuel c)
+    | none =>
+      -- a closure inside a confined function runs where that function's caller put it: not assumed confined
+      false
 
 /-- (function, field, why the access is ordered although the guard is not held) -/
 def exceptions : List (String × String × String) := [
   ("(*BaseClient).serve", "BaseClient.sig",
      "the reader goroutine is started by Connect after init() stored sig under mu (go statement); sig is never reassigned"),
   ("(*BaseClient).Connect", "BaseClient.connClosed",
-     "the reader goroutine closes the channel init() created before it was started; Connect itself holds muConnecting exclusively"),
+     "Connect waits on the channel init() created (under mu) earlier in the same call; it holds muConnecting exclusively"),
+  ("(*BaseClient).Connect$go", "BaseClient.connClosed",
+     "the reader goroutine closes the channel init() created before the goroutine was started (go statement); never reassigned while it runs"),
   ("(*BaseClient).Ping", "BaseClient.connClosed",
      "read after signaller() succeeded under mu, i.e. after init() published sig and connClosed together; never reassigned"),
   ("publishImpl", "BaseClient.connClosed", "as for Ping"),
@@ -45,7 +63,7 @@ def exceptions : List (String × String × String) := [
   ("unsubscribeImpl", "BaseClient.connClosed", "as for Ping"),
   ("(*BaseClient).Connect", "signaller.chConnAck",
      "written under BaseClient.mu before CONNECT is written; the reader reads it only for the CONNACK that answers that CONNECT"),
-  ("(*RetryClient).SetClient", "RetryClient.chTask",
+  ("(*RetryClient).SetClient$go", "RetryClient.chTask",
      "read by the task goroutine, started after the channel was created under mu; only ever closed, never reassigned")
 ]
 
@@ -56,7 +74,7 @@ def ok (a : String × String × Bool × List String) : Bool :=
   let (fn, field, write, held) := a
   match guard field with
   | some m => holds m write held || exceptions.any (fun e => e.1 = fn && e.2.1 = field)
-  | none => taskGoroutineFns.contains fn
+  | none => confined 4 fn
 
 /-- every access in the regenerated table follows the discipline -/
 theorem discipline : Generated.accesses.all ok = true := by decide +kernel
